@@ -93,20 +93,27 @@ def _d(v: Any) -> str:
     return repr(v)[:60]
 
 
-def tiny_operator() -> Any:
-    return DiagonalOperator(jnp.asarray([2.0, 4.0], dtype=jnp.float32), in_structure=jax.ShapeDtypeStruct((2,), jnp.float32))
+def tiny_operator(composite: bool = False) -> Any:
+    d = DiagonalOperator(jnp.asarray([2.0, 4.0], dtype=jnp.float32), in_structure=jax.ShapeDtypeStruct((2,), jnp.float32))
+    if composite:
+        # a composite operand: its reduce() returns a new object (sqrt(d) @ sqrt(d) = d)
+        r = DiagonalOperator(jnp.sqrt(jnp.asarray([2.0, 4.0], dtype=jnp.float32)), in_structure=jax.ShapeDtypeStruct((2,), jnp.float32))
+        return r @ r
+    return d
 
 
 # ---- (a) random well-nested histories in one context -------------------------------------------------
 
 
 def run_history(rng: Any, mon: str, max_depth: int, length: int, apply_budget: list[int], trace: list[str],
-                stack: list[dict[str, Any]], fired: list[tuple[int, int]], depth: int = 0) -> None:
-    """Executes a random sequence of events at the current nesting level (recursing into with-blocks)."""
+                stack: list[dict[str, Any]], fired: list[tuple[int, int]], depth: int = 0,
+                outer: list[tuple[Any, dict[str, Any]]] | None = None) -> None:
+    """Executes a random sequence of events at the current nesting level (recursing into with-blocks).
+    Inverses created at enclosing levels stay usable (reduced / applied) inside the nested blocks."""
     n = int(rng.integers(1, length + 1))
-    inverses: list[tuple[Any, dict[str, Any]]] = []
+    inverses: list[tuple[Any, dict[str, Any]]] = list(outer or [])
     for _ in range(n):
-        ev = gen.pick(rng, ['enter', 'enter', 'read', 'create', 'apply', 'raise-inside'])
+        ev = gen.pick(rng, ['enter', 'enter', 'read', 'create', 'apply', 'raise-inside', 'reduce-inverse'])
         if ev in ('enter', 'raise-inside') and depth < max_depth:
             kw = fresh_settings(rng, fired)
             new_top = {**stack[-1], **kw}
@@ -119,7 +126,7 @@ def run_history(rng: Any, mon: str, max_depth: int, length: int, apply_budget: l
                     LOG.evaluated(mon)
                     if ok and any(getattr(c, f) is not stack[-1][f] and getattr(c, f) != stack[-1][f] for f in FIELDS):
                         LOG.violation('C19', mon, 'enter/as-value', '`with Config(...) as c` did not return the active state', history=' '.join(trace[-14:]))
-                    run_history(rng, mon, max_depth, max(1, length // 2), apply_budget, trace, stack, fired, depth + 1)
+                    run_history(rng, mon, max_depth, max(1, length // 2), apply_budget, trace, stack, fired, depth + 1, inverses)
                     if boom:
                         trace.append(f'RAISE{depth + 1}')
                         raise Boom()
@@ -134,7 +141,7 @@ def run_history(rng: Any, mon: str, max_depth: int, length: int, apply_budget: l
             compare(mon, 'read', stack[-1], trace)
         elif ev == 'create':
             trace.append('CREATE')
-            inv = InverseOperator(tiny_operator())
+            inv = InverseOperator(tiny_operator(composite=bool(rng.integers(2))))
             LOG.evaluated(mon)
             top = stack[-1]
             for f in FIELDS:
@@ -143,6 +150,25 @@ def run_history(rng: Any, mon: str, max_depth: int, length: int, apply_budget: l
                     LOG.violation('C19', mon, f'create-inverse/captured-{f}', f'captured {_d(got)}, active at creation {_d(top[f])}', history=' '.join(trace[-14:]))
                     break
             inverses.append((inv, dict(top)))
+        elif ev == 'reduce-inverse' and inverses:
+            # reducing a lazy inverse (alone or inside a chain) under another configuration must not change the
+            # configuration it captured when it was created
+            k = int(rng.integers(len(inverses)))
+            inv, at_creation = inverses[k]
+            trace.append('REDUCE-INVERSE')
+            red = (inv @ tiny_operator()).reduce() if rng.integers(2) else inv.reduce()
+            found = []
+            from .. import dense as _dense
+            _dense.walk(red, lambda o: found.append(o) if type(o).__name__ == 'InverseOperator' else None)
+            LOG.evaluated(mon)
+            for o in found:
+                for f in FIELDS:
+                    got = getattr(o.config, f)
+                    if not ((got is at_creation[f]) if f in ('solver', 'solver_callback') else (got == at_creation[f])):
+                        LOG.violation('C19', mon, f'reduce-inverse/captured-{f}', f'after reduce() the inverse holds {_d(got)}, captured at creation {_d(at_creation[f])}',
+                                      history=' '.join(trace[-14:]))
+                        break
+                inverses[k] = (o, at_creation)
         elif ev == 'apply' and inverses and apply_budget[0] > 0:
             inv, at_creation = inverses[int(rng.integers(len(inverses)))]
             cb = at_creation['solver_callback']
